@@ -82,7 +82,7 @@ func ModelDump(d *meta.Data) string {
 			}
 			w(" W %d", len(rp.MstVersions))
 			for _, vk := range sortedKeys(rp.MstVersions) {
-				w(" %s %d", vk, rp.MstVersions[vk].Version)
+				w(" %s %d", tok(vk), rp.MstVersions[vk].Version)
 			}
 			w(" G %d", len(rp.ShardGroups))
 			for i := range rp.ShardGroups {
